@@ -36,7 +36,12 @@ def _analyse(args):
         repo = Repo(root, overlay=overlay)
         if repo.parse_errors:
             return ("syntax", repo.parse_errors)
-        ks = _keys(prop, repo)
+        from . import cli
+        reports = cli.run_property(prop, repo)
+        ks = {f.key(): f for r in reports for f in r.findings}
+        errs = [r.error for r in reports if getattr(r, "error", None)]
+        if errs and not ks:
+            return ("analysis-error", "; ".join(errs))
         return ("ok", [(list(k), f.message) for k, f in ks.items()])
     except AnalysisError as e:
         return ("analysis-error", str(e))
